@@ -166,7 +166,9 @@ theorem infeasible_keeps (inv : List (List α) → Option (List (List α))) (s :
   simp only
   split
   · exact ⟨rfl, rfl, rfl, rfl, rfl⟩
-  · split <;> exact ⟨rfl, rfl, rfl, rfl, rfl⟩
+  · split
+    · exact ⟨rfl, rfl, rfl, rfl, rfl⟩
+    · split <;> exact ⟨rfl, rfl, rfl, rfl, rfl⟩
 
 theorem infeasible_fold_keeps (inv : Nat → List (List α) → Option (List (List α)))
     (l : List (AInd φ α × Nat)) (s : State φ α) :
